@@ -85,3 +85,11 @@ func VerifUnionHistory(b MemBuffer, k []byte) ([][]byte, error) {
 	}
 	return l, err
 }
+
+// VerifUnionSnapshotSeq returns ART.SnapshotSeqNo (false for buffers without one).
+func VerifUnionSnapshotSeq(b MemBuffer) (int, bool) {
+	if db, ok := b.(*artDBWithContext); ok {
+		return db.ART.SnapshotSeqNo, true
+	}
+	return 0, false
+}
